@@ -69,8 +69,7 @@ def run(tier):
     try:
         with common.Lock():
             common.stage_harness()
-            import gen04
-            gen04.emit_all()
+            common.emit_all_gen()
             ok_inst, ok_props, _, logs = common.coq_stage(rp, ["theories/Proofs/LexerP.vo", "theories/Proofs/LoopsP.vo", "theories/Proofs/CursorP.vo"],
                                                          "theories/Props/C01.v", theorems)
     except common.StageError as e:
@@ -164,6 +163,15 @@ def run(tier):
     rp.cov["large_input_calls"] = bcalls
     rp.cov["large_input_bytes"] = [len(b) for b in big]
     rp.obligation("oracle: %d calls (%d inputs x every entry point) returned a value or an error" % (calls, len(ins)), n_new == 0)
+    if tier != "quick":
+        # independent re-check of the whole development (every Props file and its dependencies) with coqchk
+        with common.Lock():
+            common.coq_make(["-k"], timeout=3000)
+            okc, axioms, tail = common.coqchk_props()
+        rp.obligation("coqchk -o over all compiled Props files: accepted, no axioms beyond the library's primitive integers", okc and not axioms, (str(axioms) + tail)[-300:])
+        rp.cov["coqchk_axioms"] = axioms
+        if not okc or axioms:
+            rp.violation({"kind": "proof", "theorem": "coqchk over coq/theories/Props", "axioms": axioms, "log": tail}, "coqchk", no_input=True)
     rp.cov["evaluations"] = calls
     rp.cov["inputs"] = len(ins)
     rp.cov["distinct_nontrivial"] = len(set(ins))
